@@ -29,7 +29,7 @@
 #define MAXTH 16
 
 enum { EV_SEC_BEGIN = 1, EV_SEC_END, EV_SYNC_ENT, EV_SYNC_RET };
-enum { CF_GP_WAITED = 0, CF_SYNC_CONCURRENT = 1, CF_NESTED = 2, CF_SIG_IN_LIB = 3, CF_REG_DURING_GP = 4, CF_HANDLER_SEC = 5, CF_BP_GROW = 6, CF_SOLO_DURING_GP = 7 };
+enum { CF_GP_WAITED = 0, CF_SYNC_CONCURRENT = 1, CF_NESTED = 2, CF_SIG_IN_LIB = 3, CF_REG_DURING_GP = 4, CF_HANDLER_SEC = 5, CF_BP_GROW = 6, CF_SOLO_DURING_GP = 7, CF_WAITED_FOR_GP = 8 };
 
 struct node { unsigned long gen, chk; };
 
@@ -127,8 +127,21 @@ static void do_read(int u)
 		if (c != ~g) ds_fail("pointer oracle: node %p of updater %d read inside a critical section has gen=%lx chk=%lx (poisoned or reused)", (void *)p, u, g, c);
 	}
 }
-static NS void sync_ent(int u) { if (sync_active) ds_flag(CF_SYNC_CONCURRENT); sync_active++; ds_ev(EV_SYNC_ENT, u, 0); }
-static NS void sync_ret(int u) { sync_active--; ds_ev(EV_SYNC_RET, u, 0); }
+static unsigned long sync_inflight;	/* bit per in-flight synchronize_rcu() call, indexed by the calling thread */
+static NS void sync_ent(int u) { if (sync_active) ds_flag(CF_SYNC_CONCURRENT); sync_active++; sync_inflight |= 1ul << ds_self(); ds_ev(EV_SYNC_ENT, u, 0); }
+static NS void sync_ret(int u) { sync_active--; sync_inflight &= ~(1ul << ds_self()); ds_ev(EV_SYNC_RET, u, 0); }
+static NS unsigned long inflight_snapshot(void) { return sync_inflight; }
+static NS int still_inflight(unsigned long snap) { return (sync_inflight & snap) != 0; }
+/* C02: the calling thread is quiescent (outside any section / offline / has just announced a quiescent state): every synchronize_rcu() that was in
+ * flight at the snapshot needs nothing more from this thread and must return while it merely spins in application code (no RCU call). A lost wake-up
+ * leaves the updater asleep and this loop spinning: the engine reports 'stuck'.  (An *online* qsbr thread must not do this, not even right after
+ * rcu_quiescent_state(): the grace period of a synchronize_rcu() call that has been entered may begin later and then needs another quiescent state.) */
+static void wait_for_syncs(unsigned long snap)
+{
+	if (!still_inflight(snap)) return;
+	ds_flag(CF_WAITED_FOR_GP);
+	while (still_inflight(snap)) ds_yield();
+}
 static void do_sync(int u)
 {
 	unsigned long g = ++gen_ctr[u];
@@ -220,10 +233,10 @@ static void on_signal(int tid)
 static NS void set_registered(int v) { me_ts()->registered = v; if (sync_active) ds_flag(CF_REG_DURING_GP); }
 static NS void set_online(int v) { me_ts()->online = v; }
 
-enum { OP_REG, OP_UNREG, OP_LOCK, OP_UNLOCK, OP_READ, OP_SYNC, OP_QS, OP_OFFLINE, OP_ONLINE, OP_YIELD, OP_SPAWN, OP_JOIN, OP_GATE, OP_BAD };
+enum { OP_REG, OP_UNREG, OP_LOCK, OP_UNLOCK, OP_READ, OP_SYNC, OP_QS, OP_OFFLINE, OP_ONLINE, OP_YIELD, OP_SPAWN, OP_JOIN, OP_GATE, OP_WAITSYNC, OP_QSWAIT, OP_BAD };
 static NS int fetch(int t, int i, long *a0)
 {
-	static const char *names[] = { "reg", "unreg", "lock", "unlock", "read", "sync", "qs", "offline", "online", "yield", "spawn", "join", "gate" };
+	static const char *names[] = { "reg", "unreg", "lock", "unlock", "read", "sync", "qs", "offline", "online", "yield", "spawn", "join", "gate", "waitsync", "qswait" };
 	const struct ds_op *o = ds_op(t, i);
 	*a0 = o->a[0];
 	for (int k = 0; k < OP_BAD; k++) if (!strcmp(o->name, names[k])) return k;
@@ -278,6 +291,10 @@ static void *thread_main(void *arg)
 		else if (op == OP_QS) { sec_end(); lib_enter(); F(quiescent_state)(); lib_exit(); sec_begin(); }
 		else if (op == OP_OFFLINE) { sec_end(); set_online(0); lib_enter(); F(thread_offline)(); lib_exit(); }
 		else if (op == OP_ONLINE) { lib_enter(); F(thread_online)(); lib_exit(); set_online(1); sec_begin(); }
+#endif
+		else if (op == OP_WAITSYNC) wait_for_syncs(inflight_snapshot());
+#ifdef FL_QSBR
+		else if (op == OP_QSWAIT) { unsigned long snap = inflight_snapshot(); sec_end(); lib_enter(); F(quiescent_state)(); lib_exit(); sec_begin(); wait_for_syncs(snap); }
 #endif
 		else if (op == OP_YIELD) ds_yield();
 		else ds_bad_case("gp: op not valid in a thread program");
